@@ -118,6 +118,22 @@ impl C13 {
         for step in 0..nops {
             counter += 1;
             let areas_before = light_areas(&ax, heap_area);
+            // now and then the host installs further handlers (or repeats names) in the middle of the run:
+            // the break, the heap and its contents are unaffected
+            if rng.below(16) == 0 {
+                let which = match rng.below(4) {
+                    0 => vec![Syscall::Exit],
+                    1 => vec![Syscall::Pipe, Syscall::Brk],
+                    2 => vec![Syscall::Brk],
+                    _ => vec![Syscall::ArchPrctl, Syscall::Exit],
+                };
+                let r = call(|| ax.handle_syscalls(which.clone()));
+                tail.push(format!("handle_syscalls({:?}) -> {}", which, r.kind()));
+                col.distinct_key("install-mid-run");
+                if r.is_panic() {
+                    return fail(col, &format!("panic:{}", r.panic_key()), r.describe(), &tail, &layout);
+                }
+            }
             let op = rng.below(10);
             match op {
                 0 | 1 => {
